@@ -236,8 +236,15 @@ func ndTry(f func()) (panicked bool) {
 	return false
 }
 
+// verifCaseReset (set by a package's harness files) restores process-global state of the code
+// under test before each replayed case: all cases of a batch share one process
+var verifCaseReset func()
+
 func verifRunCase(c *verifCase) (out []string) {
 	verifCur = c
+	if verifCaseReset != nil {
+		verifCaseReset()
+	}
 	verifFailed = nil
 	verifCovered = nil
 	// (printed at once, so that anything the runtime reports while the case runs, e.g. the race
